@@ -117,7 +117,9 @@ def main(argv):
         elif o is not None and o.replay is not None:
             wd = native.workdir('replay')
             try:
-                reproduced, detail = o.replay(g.get('model') or {}, wd)
+                mdl = dict(g.get('model') or {})
+                mdl['_goal'] = g['id']
+                reproduced, detail = o.replay(mdl, wd)
             except Exception as e:
                 reproduced, detail = None, 'replay failed to run: %s' % e
             finally:
